@@ -244,6 +244,63 @@ func ruleBuildGuards(c *Ctx) {
 		c.Oblige("X.dom.build", found && dominated, reg.Pos(), name, g.desc,
 			fmt.Sprintf("%s: the point where a field is added to the codec must be dominated by the branch of this test that continues (test found: %v)", g.why, found), nil)
 	}
+	// X.dom.skip: a field is left out of the codec only by the two skip tests.
+	// Skip edges: a branch inside the field loop one arm of which still reaches
+	// the registration point while the other goes round the loop without it.
+	for h, body := range loopsOf(f) {
+		if !body[S] {
+			continue
+		}
+		reach := map[*ssa.BasicBlock]bool{S: true}
+		for changed := true; changed; {
+			changed = false
+			for b := range body {
+				if reach[b] || b == h {
+					continue
+				}
+				for _, sc := range b.Succs {
+					if reach[sc] && sc != h {
+						reach[b] = true
+						changed = true
+					}
+				}
+			}
+		}
+		// the header itself decides the loop, not a skip
+		nskip := 0
+		for d := range body {
+			if !reach[d] && d != h {
+				continue
+			}
+			if d == S {
+				continue
+			}
+			iff, ok := d.Instrs[len(d.Instrs)-1].(*ssa.If)
+			if !ok || d == h {
+				continue
+			}
+			for i, t := range d.Succs {
+				if reach[t] || !(body[t] || t == h) {
+					continue // continues towards the registration, or leaves the loop (an error return)
+				}
+				// does t come back to the header without returning?
+				nskip++
+				okSkip := false
+				for _, g := range guards[:3] {
+					if g.desc == "missing plenc tag rejected" {
+						continue
+					}
+					if skip, ok := g.match(iff); ok && skip == i {
+						okSkip = true
+					}
+				}
+				c.Oblige("X.dom.skip", okSkip, iff.Pos(), name, "a field is skipped only because it is unexported or tagged \"-\"",
+					"every other field must end up in the codec or make the build fail: a further way round the loop (an embedded field without a tag, a kind the author does not care about …) silently drops data from every message", nil)
+			}
+		}
+		_ = nskip
+	}
+	c.Floor("X.dom.skip", 2)
 	// the index stored is the Atoi result
 	okSrc := false
 	if ex, ok := reg.Val.(*ssa.Extract); ok && ex.Index == 0 {
@@ -643,6 +700,8 @@ func init() {
 			ruleOptionRejected(c)
 			ruleBuildCycle(c)
 			ruleOverlayKey(c)
+			// a value handed to Marshal by value reaches the codec as a pointer to the value for every accepted type
+			ruleEfaceDirect(c)
 			ruleReflectPre(c)
 		},
 	})
